@@ -20,6 +20,7 @@ def check(cx):
     ck = cx.check
     ck.decides += [
         'R11.1 census of every write that can raise oper/local_oper: only OPER under (configured name, password verified, mask matched) for the own user, and User::new copying the configured default modes',
+        'R11.7 removing the mode removes the status: for every user-mode letter that has a clearing assignment, MODE -<letter> on the own nick clears the flag whenever it is set, under no further condition',
         'R11.2 user MODE is applied only when the target equals the own nick; foreign targets get 502/401; every effect of process_mode_user is keyed by that target',
         'R11.3 KILL/DIE effects are guarded by the oper flag (else 481/483), WALLOPS fan-out and STATS replies by is_local_oper (else 481); KILL names the killer; WALLOPS fans out over exactly the +w set; SQUIT delegates to DIE only for the own server name',
         'R11.4 is_local_oper = local_oper || oper',
@@ -127,6 +128,34 @@ def check(cx):
         if not keyed:
             r2.violation('process_mode_user|foreign-effect|%s' % desc, 'user MODE changes state not belonging to the target user: %s' % desc,
                          loc=cx.loc(e.node))
+
+    # ---------------------------------------------------------------- R11.7 a set flag can always be dropped
+    r6 = cx.rule('R11.7', 'MODE -<letter> clears a set flag unconditionally', floor=3, kind='entailment')
+    mchar = None
+    for e in wu.events:
+        for a in atoms(e.pc):
+            if a[0] == 'eq' and a[2][0] == 'lit' and isinstance(a[2][1], str) and len(a[2][1]) == 1 and 'chars' in repr(a[1]):
+                mchar = a[1]
+    sign = [a for e in wu.events for a in atoms(e.pc) if a[0] == 'truth' and a[1][0] == 'mvar']
+    if mchar is None or not sign:
+        raise AnchorLost('process_mode_user: mode character / sign flag not found')
+    sign = sign[0]
+    inner = [e for e in wu.events if len(e.loops) >= 2]
+    base = [c for c in conjuncts(inner[0].pc) if all(entails(e.pc, c)[0] for e in inner[:40])] if inner else []
+    clears = {}
+    for e in wu.events:
+        if e.kind == 'assign' and not e.data.get('init') and sym.as_formula(e.data['rhs']) == F and \
+                mentions(e.data['lhs'], ('idx', USERS, TGT)) and path_of(e.data['lhs'])[-2:-1] == ['modes']:
+            for L in 'iwoOr':
+                if entails(e.pc, Atom(('eq', mchar, ('lit', L))))[0]:
+                    clears.setdefault((L, e.data['lhs']), []).append(e)
+    for (L, place), evs in sorted(clears.items(), key=lambda kv: kv[0][0]):
+        r6.instance("-%s clears %s whenever it is set" % (L, show_term(place)[-30:]))
+        pre = And(*base, Atom(('eq', mchar, ('lit', L))), Not(Atom(sign)), flag(place))
+        ok, m = entails(pre, Or(*[e.pc for e in evs]))
+        if not ok:
+            r6.violation('process_mode_user|cannot-drop|%s|%s' % (L, path_of(place)[-1]), "MODE -%s does not always clear %s: a user can be unable "
+                         "to give the status up (%s)" % (L, path_of(place)[-1], model_str(m)), loc=cx.loc(evs[0].node))
 
     # ---------------------------------------------------------------- R11.3 operator commands
     r3 = cx.rule('R11.3', 'operator commands guarded by operator status', floor=11, kind='required-guard')
